@@ -49,7 +49,7 @@ static __attribute__((noinline)) void perm_case(unsigned i) {
   hex_faces(m);
   std::vector<HFH> base = hex_list0();
   if (variant == 1) {
-    if (!m.add_cell(hex_list0(), true).is_valid()) return;
+    if (!m.add_cell(hex_list0_ordered(), false).is_valid()) return;   // context only (the re-ordering of this list is job (1)/(2) variant 0)
     hex2_faces(m);
     base = hex_list1();
   }
@@ -69,7 +69,7 @@ static __attribute__((noinline)) void perm_case(unsigned i) {
     bool same_set = after.cval[before.nC] == 6;
     for (int j = 0; j < 6; ++j) { int cnt = 0; for (int k = 0; k < 6; ++k) if (after.chf[before.nC][k] == base[(size_t)j].idx()) ++cnt; if (cnt != 1) same_set = false; }
     v_assert(same_set, "C16 accepted add_cell stores a re-ordering of exactly the given six halffaces");
-    check_hex_all(m, P_CONV | P_ORI | P_HV);
+    check_hex_all(m, P_CONV | P_ORI | P_HV, 0, 0, before.nC);
     v_witness("C16 perm accepted");
   }
   v_witness("C16 perm case end");
